@@ -6,7 +6,9 @@ Import ListNotations.
 Definition chk_form_table_gen (c : pcase) : bool :=
   let '(n, f, tv, _) := c in tris_eqb (table n (py_build f)) tv.
 Definition chk_form_shape_gen (c : pcase) : bool :=
-  let '(_, f, _, ops) := c in cnf_eqb (py_build f) ops.
+  let '(_, f, _, ops) := c in match ops with Some o => cnf_eqb (py_build f) o | None => true end.
+Definition chk_form_all_gen (c : pcase) : bool :=
+  chk_form_table c && chk_form_table_gen c && chk_form_shape_gen c && chk_form_shape c.
 Definition step_gen (op : N) (self : cnf) (args : list (bool * cnf)) : cnf :=
   match op with
   | 0%N => py_logical_and self args
@@ -16,4 +18,7 @@ Definition step_gen (op : N) (self : cnf) (args : list (bool * cnf)) : cnf :=
 Definition chk_step_table_gen (c : scase) : bool :=
   let '(n, op, self, args, tv, _) := c in tris_eqb (table n (step_gen op self args)) tv.
 Definition chk_step_shape_gen (c : scase) : bool :=
-  let '(_, op, self, args, _, res) := c in cnf_eqb (step_gen op self args) res.
+  let '(_, op, self, args, _, res) := c in
+  match res with Some r => cnf_eqb (step_gen op self args) r | None => true end.
+Definition chk_step_all_gen (c : scase) : bool :=
+  chk_step_table c && chk_step_table_gen c && chk_step_shape_gen c && chk_step_shape c.
